@@ -1,9 +1,13 @@
 #!/bin/sh
-# usage: tools/try_mutant.sh <patch.diff> <tier> <ID> [ID...]   applies the patch to /repo, runs the checks, reverts
+# usage: tools/try_mutant.sh <patch.diff> <tier> <ID> [ID...]   applies the patch to a scratch worktree (never /repo) and runs the checks on it
 P=$1; T=$2; shift 2
-git -C /repo apply "$P" || { echo "patch does not apply"; exit 3; }
+WT=/tmp/wt_try
+git -C /repo worktree remove --force $WT 2>/dev/null; git -C /repo worktree prune
+git -C /repo worktree add -q --detach $WT HEAD || exit 3
+git -C $WT apply "$P" || { echo "patch does not apply"; git -C /repo worktree remove --force $WT; exit 3; }
+mkdir -p /tmp/try_out
 for id in "$@"; do
-  timeout 1000 /verif/check $id $T > /tmp/try_$id.log 2>&1; rc=$?
+  VERIF_REPO=$WT VERIF_OUT=/tmp/try_out timeout 1000 /verif/check $id $T > /tmp/try_$id.log 2>&1; rc=$?
   echo "== $id rc=$rc: $(grep -m1 -E 'VIOLATION|HARNESS-ERROR' /tmp/try_$id.log | cut -c1-300)"; grep -A1 -m1 VIOLATION /tmp/try_$id.log | tail -1 | cut -c1-300
 done
-git -C /repo checkout -- .
+git -C /repo worktree remove --force $WT
